@@ -49,3 +49,11 @@ CHECKS["C06"] = dict(
     design_ref="DESIGN.md section 3 C06",
     note="Duplicates are re-executions of completed tasks (no two writers of one key race). Serialized execution uses a LocalStore directory. Schedules are sampled, not enumerated.",
 )
+
+CHECKS["C11"] = dict(
+    level="exploration",
+    technique="property-based testing of store/to_zarr call shapes: generated sources x targets (sentinel-prefilled, traced) x regions x eager/lazy x repeated sources x executors; targets read back with plain zarr and compared with the expected image; rejected calls must leave no trace",
+    text="Sinks are drawn over the nodes of a generated program: fresh paths, groups, existing arrays with equal / different / non-dividing chunking, sharded arrays, aligned regions (offsets, last partial chunk, all-slice(None)), mis-aligned regions, the same source stored several times, eager or lazy (computed together or one by one), on the permuting sequential executor, single-threaded and threads. Every target is read back from the unwrapped store with plain zarr: region = source values (NumPy oracle), complement = sentinel. Mis-aligned regions must raise before any write; a valid call shape that fails after execution started is also reported.",
+    design_ref="DESIGN.md section 3 C11",
+    note="Trusted: NumPy oracle for source values (C01 tolerances), zarr for reading back. Races under threads are sampled, the structural cause (shared chunks) is C05's invariant.",
+)
